@@ -16,7 +16,7 @@ CHECKS = {
         technique="Kani loop-free harnesses (full-domain symbolic store + u128 amounts) on the extracted increase/decrease_balance, fee, pay_fee, add_fee_to_block_fees, App::end_block, Transfer/BridgeLock/BridgeUnlock/Ics20Withdrawal execute",
         text="Each ledger-moving function is verified for all amounts and all initial states of the keys it touches: exact debit/credit in mathematical integers (no wrap, no saturation), "
              "conservation per call including the alias case, write frame (no other key changes), fee == base + multiplier*size exactly, fee debited from the signer only and credited to the block-fee map by the same amount, and end_block credits every asset's block total to the fee recipient exactly (map of <= 2 assets, bounded).",
-        note=KANI_TB + " BridgeTransfer is under C04, ICS-20 receive/refund under C18. Not under contract: per-action FeeHandler impls, the lifting from per-call to per-history conservation is a Verus lemma (c01_ledger) over a hand transcription of these postconditions in per-asset aggregates (trusted transcription).",
+        note=KANI_TB + " BridgeTransfer is under C04, ICS-20 receive/refund under C18; known finding K3 (unescrowed withdrawal of a sequencer-origin asset named by its ibc/ hash) is reported under C01 and C18. Not under contract: per-action FeeHandler impls, the lifting from per-call to per-history conservation is a Verus lemma (c01_ledger) over a hand transcription of these postconditions in per-asset aggregates (trusted transcription).",
     ),
     "C02": dict(
         category="proof",
@@ -44,7 +44,7 @@ CHECKS = {
         technique="Kani full-domain harnesses on the extracted ExecutionStateMachine transition functions (contract = total transition relation); Kani harnesses on the extracted App::process_proposal and App::finalize_block with the application state modelled as the ordered log of state-changing steps",
         text="Decides only the part of the property that lives in the execution-state machine: check_if_prepared_proposal returns true iff the cached proposal equals the request in every one of its seven fields, check_if_executed_block true iff the hash is the executed block's, "
              "set_executed_block succeeds only from Unset/PreparedValid, errors leave the machine unchanged and the two mismatch states are absorbing, for all states and requests. App skeleton: for a decided block the validator path (ProcessProposal, then FinalizeBlock served from the cache) and the syncing path (FinalizeBlock alone) apply the same steps in the same order and return the same app hash, events and transaction results — discharged for blocks without oracle prices (up to 1 transaction quick, 2 thorough); for blocks carrying prices the obligation fails and is the listed known finding K2. Determinism below the skeleton is NOT decided.",
-        note="level other: a per-function proof of the skip/re-execute decision, not of determinism. Trusted: Kani/CBMC, small finite stand-ins for tendermint types. Steps below the skeleton (pre-execution, transaction execution, post-execution, price application, commit) are logged stand-ins and nothing is assumed to commute; the ExecutionStateMachine stand-in in unit c05_paths transcribes the relation proved in c05_execution_state. Not under contract: prepare_proposal's own cached path, commit, multi-round histories, HashMap iteration, storage.",
+        note="level other: a per-function proof of the skip/re-execute decision, not of determinism. Trusted: Kani/CBMC, small finite stand-ins for tendermint types. Steps below the skeleton (pre-execution, transaction execution, post-execution, price application, commit) are logged stand-ins and nothing is assumed to commute; the ExecutionStateMachine stand-in in unit c05_paths transcribes the relation proved in c05_execution_state. A proposal rejected after its transactions ran leaves no state behind (next round == syncing path). Not under contract: prepare_proposal's own cached path, commit, HashMap iteration, storage.",
     ),
     "C06": dict(
         category="proof",
@@ -134,6 +134,6 @@ CHECKS = {
         technique="Kani loop-free harnesses on the extracted decrease_ibc_channel_balance, refund_tokens_to_sequencer_address, is_transfer/refund_source_zone and receive_tokens against a symbolic store; recv_packet_execute with a snapshot/restore StateDelta stand-in; refund_tokens with the real emit_deposit, timeout_packet_execute and acknowledge_packet_execute",
         text="Escrow is debited by exactly the amount and never below zero (insufficient escrow is an error, nothing written); a refund releases escrow exactly iff the sequencer was the source zone and credits the recipient exactly; a successful receive debits escrow / registers the asset and credits exactly, with a deposit iff the recipient is a bridge account. "
              "recv_packet_execute: an error acknowledgement implies that no balance, escrow, asset registration, deposit or event of the failed transfer survives; on success the nested delta is applied once and its events re-recorded. Refund side: a successful refund credits the original sender exactly, releases escrow exactly iff the sequencer was the source zone, and for a withdrawal that came from a rollup caches exactly one deposit to the bridge account of that rollup for the same amount and asset; a timeout refunds once or fails; an acknowledgement refunds iff it is an error acknowledgement, a success acknowledgement moves nothing, an undecodable one is an error.",
-        note=KANI_TB + " Packet data carried pre-parsed; emit_bridge_lock_deposit is a stand-in; denoms have at most 2 trace segments. Memo and acknowledgement parsing are carried pre-parsed. Ics20Withdrawal::execute (sending side) is unit c18_withdrawal.",
+        note=KANI_TB + " Packet data carried pre-parsed; emit_bridge_lock_deposit is a stand-in; denoms have at most 2 trace segments. Memo and acknowledgement parsing are carried pre-parsed (acknowledgement bytes keep a canonical-encoding flag). Known finding K3: an Ics20Withdrawal naming a sequencer-origin asset by its ibc/ hash is debited but not escrowed. Ics20Withdrawal::execute (sending side) is unit c18_withdrawal.",
     ),
 }
